@@ -108,7 +108,15 @@ pub async fn add_node(
     let mut added_service_data = vec![];
     let mut failed_service_data = vec![];
 
-    let current_node_count = node_registry.nodes.len() as u16;
+    // Number new services after the highest number ever recorded rather than after the number of
+    // entries: an earlier install may have failed and left a gap, and a count-based number would
+    // then hand out a service name and data directory that another service already has.
+    let current_node_count = node_registry
+        .nodes
+        .iter()
+        .map(|node| node.number)
+        .max()
+        .unwrap_or(0);
     let target_node_count = current_node_count + options.count.unwrap_or(1);
 
     let mut node_number = current_node_count + 1;
